@@ -182,7 +182,9 @@ def M(nap, X, name, *a, **k):
 def others(shape, dtype):
     """operand kinds for binary functions, built from x's shape"""
     size = int(np.prod(shape))
-    out = {"scalar": dtype(2), "array": (np.arange(size).reshape(shape) % 3 + 1).astype(dtype)}
+    out = {"scalar": dtype(2), "array": (np.arange(size).reshape(shape) % 3 + 1).astype(dtype),
+           # a plain Python number (NumPy 2 treats it as a weak scalar: the result keeps x's dtype, and wraps for small integer dtypes)
+           "pyscalar": 100 if np.dtype(dtype).kind in "iu" else 1.5}
     if len(shape) >= 2:
         out["row"] = (np.arange(int(np.prod(shape[1:]))).reshape(shape[1:]) + 1).astype(dtype)       # broadcast along time
         out["col"] = (np.arange(shape[0]).reshape((shape[0],) + (1,) * (len(shape) - 1)) + 1).astype(dtype)
@@ -225,6 +227,14 @@ def table(nap):
         else:
             for kind in ["scalar", "array"]:
                 add("op" + name, "ew", f, kind)
+    # non-default dtypes with a plain Python scalar operand (seed C14-6: operands passed through np.asarray lose their weak-scalar status)
+    for dt in (np.uint8, np.int16, np.float32, np.int64, float):
+        for name in ("+", "r-", "*", "<"):
+            add("op" + name + "@" + np.dtype(dt).name, "ew", ops[name], "pyscalar", dt)
+        for u in ("add", "multiply", "maximum"):
+            add(u + "@" + np.dtype(dt).name, "ew", (lambda X, o, u=u: getattr(np, u)(X, o)), "pyscalar", dt)
+        add("subtract:r@" + np.dtype(dt).name, "ew", lambda X, o: np.subtract(o, X), "pyscalar", dt)
+    add("left_shift@uint8", "ew", lambda X, o: np.left_shift(X, 1), None, np.uint8)
     add("op&", "ew", lambda X, o: X & o, "array", np.int64)
     add("op~", "ew", lambda X, o: ~X, None, np.int64)
     add("op@", "plain", lambda X, o: X @ o, "matvec")
